@@ -1035,6 +1035,27 @@ def beginBlock (s : State) (app : Nat) : State :=
            wdrs := s.wdrs.filter fun r => !(r.app == app && r.status != .pending),
            orders := s.orders.filter fun o => !(o.app == app && !o.status.live) }
 
+/-! ## Store migration 1 → 2 (keeper/migrations.go, legacy/v2/store.go) -/
+
+/-- representable in the consensus-version-1 store layout (`legacy/v1`): orders have no type field (market-making orders and
+their index came with version 2) and there are no ranged pools -/
+def V1Store (s : State) : Prop := (∀ o ∈ s.orders, o.typ ≠ .mm) ∧ s.mm = [] ∧ (∀ q ∈ s.pools, q.ranged = false)
+
+instance (s : State) : Decidable (V1Store s) := by unfold V1Store; infer_instance
+
+/-- `Migrator.Migrate1to2` = `legacy/v2.MigrateStore`, registered in module.go as the consensus-version 1 → 2 migration: for
+every app the generic params are re-encoded (the three fields new in version 2 get the defaults — `Cfg` holds the
+post-migration values), every pool record becomes `Type = basic`, every order record is copied field by field
+(offer coin, REMAINING offer coin, received coin, price, amount, open amount, batch id, expiry, status) and gets `Type = limit`
+("no way to determine whether the order was made through MsgLimitOrder or MsgMarketOrder").  Nothing else is touched: no
+bank movement, pairs, requests and farmers stay.  Defined on version-1 stores. -/
+def migrate (cfg : Cfg) (s : State) : Option State :=
+  if V1Store s then
+    some { s with
+      orders := s.orders.map fun o => if (cfg.app? o.app).isSome then { o with typ := .limit } else o,
+      pools := s.pools.map fun q => if (cfg.app? q.app).isSome then { q with ranged := false } else q }
+  else none
+
 /-! ## Operations -/
 
 inductive Op where
@@ -1054,6 +1075,7 @@ inductive Op where
   | unfarmAndWithdraw (app user pool amt x y : Nat) (ext : Bool)
   | endBlock (app : Nat) (ms : List MatchIn) (dins : List DepIn) (wins : List WdrIn)
   | beginBlock (app : Nat)
+  | migrate
   deriving Repr
 
 /-- one message / block hook; `none` = rejected (the state is then left as it was, see `stepT`) -/
@@ -1074,6 +1096,7 @@ def step (cfg : Cfg) (s : State) : Op → Option State
   | .unfarmAndWithdraw a u p n x y e => unfarmAndWithdraw cfg s a u p n x y e
   | .endBlock a ms ds ws => endBlock cfg s a ms ds ws
   | .beginBlock a => some (beginBlock s a)
+  | .migrate => migrate cfg s
 
 /-- what the chain does: a rejected message / a failed block hook leaves the state untouched
 (CacheContext written back only on success; `ApplyFuncIfNoError`). -/
